@@ -76,7 +76,7 @@ func body(c *hk.Ctx) {
 	sc := &scenario{Clients: 1 + c.W(3, "clients")}
 	c.Scenario = sc
 	nCmd := 1 + c.W(4, "commands")
-	env := uid.New()
+	env := uid.ID("2rE9AV3m1HL") // a fixed id: the process-wide generator keeps state across runs
 	var mu simsync.Mutex
 	nonce := 0
 	genuine := map[int][2]int{} // nonce -> (cmd index, target)
